@@ -47,14 +47,14 @@ Inductive op :=
 | OUpdateTable (table : str) (defs : list (str * str)) (create : option index_def) (delete : option str)
 | OClearTable (table : str)
 | OPut (table : str) (it : item) (cond : option str) (names : fmap str) (vals : item)
-| OGet (table : str) (key : item)
+| OGet (table : str) (key : item) (names : fmap str) (proj : str)
 | OUpdate (table : str) (key : item) (expr : str) (cond : option str) (names : fmap str) (vals : item) (all_old : bool)
 | ODelete (table : str) (key : item) (cond : option str) (names : fmap str) (vals : item) (return_old : bool)
 | OQuery (table : str) (index : option str) (keycond filter : option str) (names : fmap str) (vals : item)
          (limit : nat) (esk : item) (forward : option bool)
 | OScan (table : str) (index : option str) (filter : option str) (names : fmap str) (vals : item) (limit : nat) (esk : item)
 | OBatchWrite (reqs : fmap (list wreq))
-| OBatchGet (reqs : fmap (list item))
+| OBatchGet (reqs : fmap (list item)) (opts : fmap (fmap str * str))   (* per table: keys; names and projection *)
 | OTransact
 | OEmulateFailure (cond : str)
 | OActivateForce
@@ -298,8 +298,8 @@ Definition put_item (c : client) (table : str) (it : item) (cond : option str) (
       end
   end.
 
-Definition get_item_op (c : client) (table : str) (key : item) : client * obs :=
-  match preamble c table [] [] [[]] with
+Definition get_item_op (c : client) (table : str) (key : item) (names : fmap str) (proj : str) : client * obs :=
+  match preamble c table names [] [proj] with
   | inl e => (c, err_obs e)
   | inr t =>
       match get_key (t_ks t) (t_defs t) key with
@@ -482,7 +482,7 @@ Definition batch_write (c : client) (reqs : fmap (list wreq)) : client * obs :=
        end
   end.
 
-Definition batch_get (c : client) (reqs : fmap (list item)) : client * obs :=
+Definition batch_get (c : client) (reqs : fmap (list item)) (opts : fmap (fmap str * str)) : client * obs :=
   match flavour with
   | V1 => (c, panic_obs RuntimePanic)          (* the v1 client does not implement BatchGetItem *)
   | V2 =>
@@ -490,7 +490,8 @@ Definition batch_get (c : client) (reqs : fmap (list item)) : client * obs :=
       | Some f => (c, err_obs (failure_err f))
       | None =>
           let per_table (tk : str * list item) :=
-            let got := map (fun k => (k, snd (get_item_op c (fst tk) k))) (snd tk) in
+            let '(names, proj) := match lookup (fst tk) opts with Some o => o | None => ([], []) end in
+            let got := map (fun k => (k, snd (get_item_op c (fst tk) k names proj))) (snd tk) in
             let found := flat_map (fun ko => match o_res (snd ko), o_pay (snd ko) with
                                              | ROk, PItem ((_ :: _) as i) => [i] | _, _ => [] end) got in
             let missing := flat_map (fun ko => match o_res (snd ko), o_pay (snd ko) with
@@ -538,13 +539,13 @@ Definition step (c : client) (o : op) : client * obs :=
       | Some tb => (set_table c (t_clear tb), ok_obs PNone [])
       end
   | OPut t i cond names vals => put_item c t i cond names vals
-  | OGet t k => get_item_op c t k
+  | OGet t k names proj => get_item_op c t k names proj
   | OUpdate t k e cond names vals ao => update_item c t k e cond names vals ao
   | ODelete t k cond names vals ro => delete_item c t k cond names vals ro
   | OQuery t ix kc fl names vals lim esk fw => query_op c t ix kc fl names vals lim esk fw
   | OScan t ix fl names vals lim esk => scan_op c t ix fl names vals lim esk
   | OBatchWrite reqs => batch_write c reqs
-  | OBatchGet reqs => batch_get c reqs
+  | OBatchGet reqs opts => batch_get c reqs opts
   | OTransact =>
       match c_failure c with
       | Some _ => (c, err_obs ForcedFailure)
